@@ -72,12 +72,16 @@ FIBRE_MIXED == 2
 \* it does not follow a fibre: no Raman, and a ROADM before the Fused is not adjacent: its booster list does not apply);
 \* VOA = the operator set a 1 dB output VOA on the amplifier (its model still auto-selected): the amplifier has to
 \* deliver the design power 1 dB higher, in front of the VOA
+\* LOAD = the operator declares the design band of the degree on its own 37.5 GHz grid: 13 channels instead of the 10 of
+\* the SI grid, so the total power the amplifier has to deliver is 10 log10(13/10) = 1.14 dB higher
 PLAIN == 0
 FUSED == 1
 VOA   == 2
+LOAD  == 3
 UVoa  == cdB(100)
+DLoad == 1139434
 Ctx(l, g, pos, fibre, useOwn, useRdm, side, var) ==
-    [g |-> g, p |-> IF var = VOA THEN PReq + UVoa ELSE PReq, variant |-> var, ext |-> Ext, pos |-> pos, useOwn |-> useOwn, useRdm |-> useRdm, rdmSide |-> side, fibre |-> fibre,
+    [g |-> g, p |-> IF var = VOA THEN PReq + UVoa ELSE IF var = LOAD THEN PReq + DLoad ELSE PReq, variant |-> var, ext |-> Ext, pos |-> pos, useOwn |-> useOwn, useRdm |-> useRdm, rdmSide |-> side, fibre |-> fibre,
      hasOwn |-> useOwn /\ \E a \in l : a.own,
      hasRdm |-> useRdm /\ \E a \in l : a.rdm /\
                 (IF var = FUSED /\ pos \in {BOOSTER, BETWEEN} THEN pos = BETWEEN /\ side \in {0, 2}     \* preamp list of the next ROADM only
@@ -94,7 +98,7 @@ Positions == {<<BETWEEN, 0>>, <<BOOSTER, 0>>, <<INLINE, 0>>, <<INLINE, 1>>, <<IN
 MCInit == /\ \E l \in Libs : \E g \in GSet(l) : \E pf \in Positions : \E uo \in BOOLEAN : \E ur \in BOOLEAN :
              \E side \in (IF ~ur \/ pf[1] = INLINE THEN {0} ELSE IF pf[1] = BOOSTER THEN {0, 2}
                           ELSE IF pf[1] = PREAMP THEN {0, 1} ELSE {0, 1, 2}) :
-             \E var \in (IF pf[2] = FIBRE_OK THEN {PLAIN, FUSED, VOA} ELSE {PLAIN}) :
+             \E var \in (IF pf[2] = FIBRE_OK THEN {PLAIN, FUSED, VOA, LOAD} ELSE {PLAIN}) :
                 case = [lib |-> AtGain(l, g), c |-> Ctx(l, g, pf[1], pf[2], uo, ur, side, var)]
           /\ stage = "start"
           /\ permitted = {}
@@ -130,8 +134,16 @@ OpenCase(lib, c) == \E a \in Permitted(lib, c) : OnlyBelowMinGain(a, c, 0) /\
 
 Spread == (case.c.g \div 500000) + case.c.pos * 3 + (IF case.c.useOwn THEN 5 ELSE 0) + (IF case.c.useRdm THEN 11 ELSE 0)
             + case.c.fibre + 13 * case.c.rdmSide + 17 * case.c.variant + SumFun([a \in case.lib |-> a.id % 9973], case.lib)
-\* cases in which no permitted model is capable (membership only) are sampled four times more sparsely
-Stride == IF CapableSet(case.lib, case.c, 0) = {} THEN 4 * EmitStride ELSE EmitStride
+\* B2 sampling density: cases in which no permitted model is capable (membership only) are sampled four times more
+\* sparsely; cases with a TEMPTING wrong choice - some model of the library that is not admissible yet quieter than every
+\* admissible one (not listed, band, Raman rule, power, gain range) - three times more densely: there a wrong filter or
+\* ranking changes the outcome
+Tempting == LET adm == Admissible(case.lib, case.c)
+                cap == CapableSet(case.lib, case.c, 0)
+            IN \/ \E a \in case.lib : a \notin adm /\ \A b \in adm : a.nf < b.nf
+               \/ \E a, b \in cap : a.nf < b.nf /\ b.nf - a.nf < 100000           \* a close call between capable models
+Stride == IF CapableSet(case.lib, case.c, 0) = {} THEN 4 * EmitStride
+          ELSE IF Tempting THEN MaxI(1, EmitStride \div 3) ELSE EmitStride
 Emit == stage # "start" \/ Spread % Stride # 0
           \/ PrintT("@@" \o ToJson([lib |-> case.lib, c |-> case.c,
                                     adm |-> {a.id : a \in Admissible(case.lib, case.c)},
